@@ -110,6 +110,8 @@ func TestTrace(t *testing.T) {
 		traceUpdater(t, o)
 	case "concstore":
 		traceConcStore(t, o)
+	case "dbtime":
+		traceDBTime(t, o)
 	default:
 		t.Fatalf("unknown family %q", o.family)
 	}
